@@ -50,7 +50,9 @@ PROPS = {
                 "amounts) with price declarations (direct, inverse, chained; re-priced on later days so that value adjustments occur) x valuation commodity (incl. names with digits / non-ASCII "
                 "letters for the X-replacement, lower case); tie-rich: equal descriptions per day, a transaction followed by its reversal, exact duplicates; user accounts under the "
                 "`Equity:Valuation:` prefix (synthesised opens). Malformed stream: lifecycle mutations, dropped/zero prices, unpriced commodities, missing/empty/invalid -v (must fail cleanly, "
-                "empty stdout, model agrees). Fixed witness journal of the known finding. class = (outcome, feature signature, valuation, transaction-count bucket, size bucket).",
+                "empty stdout, model agrees). Stream `lifecycle` (a quarter of the main stream): 3-14 days, A/L accounts holding positions over night are emptied (wholly, one commodity, half, in two "
+                "bookings, positive or negative amounts), closed on the emptying day or later and re-opened, while prices keep moving on, between and after the journal's days. "
+                "Fixed witness journal of the known finding. class = (outcome, feature signature, valuation, transaction-count bucket, size bucket).",
         "assumptions": ["accepted journals with sufficient prices (the command succeeds); transactions are posting pairs (everything the loader builds)"],
         "trusted": ["known finding valuation-account-not-opened: generated valuation accounts are never opened (C16_valuation_account_not_opened)"],
     },
